@@ -988,4 +988,121 @@ example :
   have hpos : 0 < PB.Gen.Subs.feedCap := by decide
   simp [notifyLoop_eq_map, Sub.offer, Sub.visible, permitted, PB.Gen.Subs.checkPermission, Query.matches, hpos]
 
+/-! ## Databases whose storage is read-only (`dstep`): a pushed update does not ask the storage whether it accepts writes
+
+`Controller.PushUpdate`'s guards are regenerated from the source (`PB.Gen.Subs.pushUpdateSkipsReadOnly`): with a guard
+on `ReadOnly()` (the pair of guards `Put` has) theorems 58–60, 63 and the example do not go through. -/
+
+/-- 58. A push is `notifySubscribers`, whatever the storage answers to `ReadOnly()`: on every database — writable
+    or read-only, of every storage kind — `PushUpdate` is the same step, and it is delivered. -/
+theorem push_delivered_whatever_the_storage_says_about_read_only (st : St) (r : Rec) :
+    dstep st (.push r) = (notify st r, {}) ∧ Delivered st (dstep st (.push r)).1 r := by
+  have h : dstep st (.push r) = (notify st r, {}) := by
+    simp [dstep, pushDropped, PB.Gen.Subs.pushUpdateSkipsReadOnly, step]
+  exact ⟨h, by rw [h]; exact ⟨rfl, notify_subs st r, rfl⟩⟩
+
+/-- 59. Corollary: two databases in the same state that differ only in their storage (kind, shadow-delete, and with
+    it the `ReadOnly()` answer): a push leaves the same subscriptions, feeds and write history in both. -/
+theorem push_delivery_independent_of_read_only (st : St) (cfg cfg' : Cfg) (r : Rec) :
+    (dstep { st with cfg := cfg } (.push r)).1.subs = (dstep { st with cfg := cfg' } (.push r)).1.subs ∧
+    (dstep { st with cfg := cfg } (.push r)).1.writes = (dstep { st with cfg := cfg' } (.push r)).1.writes ∧
+    (dstep { st with cfg := cfg } (.push r)).1.closed = (dstep { st with cfg := cfg' } (.push r)).1.closed := by
+  rw [(push_delivered_whatever_the_storage_says_about_read_only { st with cfg := cfg } r).1,
+    (push_delivered_whatever_the_storage_says_about_read_only { st with cfg := cfg' } r).1]
+  exact ⟨rfl, rfl, rfl⟩
+
+/-- 60. On a read-only database every listed subscription whose subscriber may see a pushed record matching its query
+    gets a send attempt for it, accepted iff its buffer has room (theorem 35 applied to `dstep`). -/
+theorem read_only_push_offers_to_every_subscription (st : St) (r : Rec) (_hro : st.cfg.readOnly = true) :
+    (dstep st (.push r)).1.subs = st.subs.map (·.offer r) :=
+  (push_delivered_whatever_the_storage_says_about_read_only st r).2.2.1
+
+/-- 61. On a read-only database every write through an interface is refused with `ErrReadOnly` before a hook runs or
+    anything changes (`PutMany`: after its permission check) — there is no successful write that would have to be
+    delivered; subscriptions, hooks and reads are those of any database. -/
+theorem read_only_refuses_writes (st : St) (hro : st.cfg.readOnly = true) :
+    (∀ o r isNew, dstep st (.put o r isNew) = (st, { res := .error .readonly })) ∧
+    (∀ o key m, dstep st (.modify o key m) = (st, { res := .error .readonly })) ∧
+    (∀ o rs, (dstep st (.putMany o rs)).1 = st ∧ (dstep st (.putMany o rs)).2.calls = [] ∧
+      (dstep st (.putMany o rs)).2.res = .error (if o.all then .readonly else .denied)) ∧
+    (∀ id o q, dstep st (.subscribe id o q) = step st (.subscribe id o q)) ∧
+    (∀ id, dstep st (.cancel id) = step st (.cancel id)) ∧
+    (∀ h, dstep st (.regHook h) = step st (.regHook h)) ∧
+    (∀ o key, dstep st (.get o key) = step st (.get o key)) := by
+  refine ⟨?_, ?_, ?_, ?_, ?_, ?_, ?_⟩
+  · intro o r isNew; simp [dstep, hro]
+  · intro o key m; simp [dstep, hro]
+  · intro o rs
+    by_cases ha : o.all = true
+    · simp [dstep, hro, ha]
+    · have ha' : o.all = false := by simpa using ha
+      simp [dstep, hro, ha', step]
+  · intro id o q; rfl
+  · intro id; rfl
+  · intro h; rfl
+  · intro o key; rfl
+
+/-- 62. A writable database: `dstep` is `step` — everything proved about `step` / `run` holds for it. -/
+theorem writable_dstep_is_step (st : St) (hw : st.cfg.readOnly = false) (op : Op) : dstep st op = step st op := by
+  cases op <;> simp [dstep, hw, pushDropped]
+
+/-- 63. Exact delivery over all histories of a database of any storage kind, read-only ones included: every
+    subscription has been offered exactly the successful writes and the pushed updates since it was subscribed that
+    match its query and that its subscriber may see, in order; and every push made is in that history. -/
+theorem delivery_exact_read_only_included (cfg : Cfg) (ops : List Op) :
+    (∀ s ∈ (drun (St.init cfg) ops).1.subs,
+        s.attempts.map (·.1) = ((drun (St.init cfg) ops).1.writes.drop s.since).filter s.visible) ∧
+    (∀ p ∈ (drun (St.init cfg) ops).1.closed,
+        p.1.attempts.map (·.1) = (((drun (St.init cfg) ops).1.writes.take p.2).drop p.1.since).filter p.1.visible) ∧
+    (∀ r, (dstep (drun (St.init cfg) ops).1 (.push r)).1.writes = (drun (St.init cfg) ops).1.writes ++ [r]) := by
+  have hstep : ∀ (st : St) (op : Op), Inv st → Inv (dstep st op).1 := by
+    intro st op h
+    by_cases hro : st.cfg.readOnly = true
+    · cases op with
+      | push r => rw [(push_delivered_whatever_the_storage_says_about_read_only st r).1]; exact Inv_step (.push r) h
+      | put o r isNew => rw [(read_only_refuses_writes st hro).1]; exact h
+      | modify o key m => rw [(read_only_refuses_writes st hro).2.1]; exact h
+      | putMany o rs => rw [((read_only_refuses_writes st hro).2.2.1 o rs).1]; exact h
+      | subscribe id o q => exact Inv_step _ h
+      | cancel id => exact Inv_step _ h
+      | regHook hk => exact Inv_step _ h
+      | cancelHook id => exact Inv_step _ h
+      | get o key => exact Inv_step _ h
+      | exists_ o key => exact Inv_step _ h
+      | flush => exact Inv_step _ h
+      | drain => exact Inv_step _ h
+      | drainOne id => exact Inv_step _ h
+    · rw [writable_dstep_is_step st (by simpa using hro)]; exact Inv_step op h
+  have hrun : ∀ (ops : List Op) (st : St), Inv st → Inv (drun st ops).1 := by
+    intro ops
+    induction ops with
+    | nil => intro st h; exact h
+    | cons op ops ih => intro st h; simp only [drun]; exact ih _ (hstep st op h)
+  have h := hrun ops (St.init cfg) (Inv_init cfg)
+  refine ⟨?_, ?_, ?_⟩
+  · intro s hs
+    have := (h.1 s hs).2.2.1
+    rwa [List.take_length] at this
+  · intro p hp
+    exact (h.2 p hp).2.2.1
+  · intro r
+    rw [(push_delivered_whatever_the_storage_says_about_read_only _ r).1]; rfl
+
+/-- Non-vacuity: a push-only database (`storage.InjectBase` as it comes), two subscribers — one with all privileges, one
+    with none —, a refused `Put`, then pushes of a live, a secret and a deleted-marked record and one outside the query:
+    the privileged feed holds the three matching ones in order, the other the two it may see; the `Put` delivered nothing. -/
+example :
+    let q : Query := ⟨false, fun k => k.startsWith "a/", fun _ => true⟩
+    let li : Opts := { loc := true, int := true }
+    let no : Opts := { loc := false, int := false }
+    let ops : List Op := [.subscribe 0 li q, .subscribe 1 no q, .put li ⟨"a/x", 9, "foo", {}⟩ false,
+      .push ⟨"a/x", 1, "foo", {}⟩, .push ⟨"a/x", 2, "foo", { secret := true }⟩, .push ⟨"b/x", 3, "bar", {}⟩,
+      .push ⟨"a/y", 4, "baz", { deleted := true }⟩]
+    (St.init ⟨.pushonly, false⟩).cfg.readOnly = true ∧
+    (drun (St.init ⟨.pushonly, false⟩) ops).1.subs.map (fun s => (s.id, s.buf.map (·.n))) = [(0, [1, 2, 4]), (1, [1, 4])] ∧
+    ((drun (St.init ⟨.pushonly, false⟩) ops).2.map (·.res)).take 3 = [.ok none, .ok none, .error .readonly] := by
+  simp [drun, dstep, step, St.init, Cfg.readOnly, pushDropped, PB.Gen.Subs.pushUpdateSkipsReadOnly, notify, notifyLoop,
+    PB.Gen.Subs.notifySentExits, PB.Gen.Subs.notifySkipExits, Sub.visible, permitted, PB.Gen.Subs.checkPermission,
+    PB.Gen.Subs.feedCap, Query.matches]
+
 end PB.C14
